@@ -154,14 +154,41 @@ def run_one_case(acc, c):
         acc.sample({"case": c, "outcomes": stats})
 
 
+def deferred_cases():
+    """an executor with a selection is constructed while setup nodes are still pending, dag.setup() runs, then the executor runs: it
+    executes exactly the closure of its selection minus the setup nodes, which keep the values setup() computed"""
+    from ..spaces import single_selections
+    for n in (2, 3):
+        for es in shapes(n):
+            for st in up_closed_sets(n, es):
+                if len(st) == n:
+                    continue
+                base = dict(n=n, es=[(i, j, "pos", ()) for (i, j) in es], setup=list(st))
+                for sel in single_selections(prog_of(base))[1:]:
+                    yield dict(base, kind="deferred", deferred_setup=True, sel=sel, res=("tm" * n)[:n], mc=2, is_async=False, ties=0)
+
+
 def run_shard(tier, k, n, acc):
-    for c in shard_iter(cases(tier), k, n, acc):
-        run_one_case(acc, c)
+    import itertools
+
+    from ..monitors import mon_c02, mon_c03
+    from ..sched import run_case
+    for c in shard_iter(itertools.chain(cases(tier), deferred_cases()), k, n, acc):
+        if c.get("kind") == "deferred":
+            run_case(acc, c, [mon_c02, mon_c03], lambda view: tuple(e[1] for e in view.trace if e[0] == "enter"))
+        else:
+            run_one_case(acc, c)
 
 
 def replay(v):
     from ..acc import Acc
     c = v["case"]
+    if c.get("kind") == "deferred":
+        from ..monitors import mon_c02, mon_c03
+        from ..sched import run_case
+        a = Acc(ID, 0, 1, 600)
+        run_case(a, c, [mon_c02, mon_c03])  # (the executor is constructed, setup() runs, the executor runs: the whole small case again)
+        return a.violations, None
     a = Acc(ID, 0, 1, 600)
     p = prog_of(dict(c, res="t" * c["n"], mc=1))
     d, ns = build_gprog(p)
